@@ -4,18 +4,25 @@ package rest
 
 // C06 — replicating peers converge to the same documents.
 //
-// Part "isgr": two RestTester peers (active with sg-replicate, passive served over an httptest server), both
-// routed through the storage hook H1. A case is a seeded script of local writes (edit / delete / resurrect) on
-// either peer interleaved with start / stop / mid-flight stop / restart of ONE replication definition
-// (push, pull or pushAndPull; one-shot or continuous; V3 revision-tree or V4 version-vector sub-protocol),
-// optionally with a local write forced into the compute->CAS window of a replicated write.
+// Part "isgr" (and "isgr-race", the same workload under the race detector): two RestTester peers (active with
+// sg-replicate, passive served over an httptest server), both routed through the storage hook H1. A case is a seeded
+// script of local writes (edit / delete / resurrect) on either peer interleaved with start / await / stop / restart
+// of ONE replication definition (push, pull or pushAndPull; one-shot or continuous; V3 revision-tree or V4
+// version-vector sub-protocol) and with four H1 devices:
+//   mid-flight stop   the replicated write of one document is parked at the storage boundary, the replication is
+//                     stopped, then the write goes through late or fails (= the in-flight revision is lost)
+//   mid-window write  one local write inside the compute->CAS window of the next replicated write of a document
+//   mid-window read   a client read of the document inside that window (one armed read, or - reader mode - every
+//                     window of the case on the active)
+//   pull refusal      the active refuses the next pulled revision of a document once while connected
 //
-// Oracles, all evaluated at bounded quiescence (see c06Finalize):
+// Oracles, all evaluated at bounded quiescence (see finalize / passesToIdle):
 //   direction   what the replication direction must have achieved for every document
 //   idle-rerun  a re-run of the caught-up replication transfers nothing (status deltas and H1 log)
-//   converged   after the complementary direction has also caught up both peers are identical
+//   converged   after a pushAndPull epilogue has also caught up both peers are identical
 //
-// Nothing predicts the resolver's winner: only agreement / adoption is demanded.
+// Nothing predicts the resolver's winner: only agreement / adoption is demanded. Where the storage history or the
+// revision-tree shape of a divergence names its cause (classify, c06Shape), the signature names the cause.
 
 import (
 	"encoding/json"
@@ -67,6 +74,9 @@ type c06Peer struct {
 	midFn     atomic.Pointer[func(doc int)]
 	inHook    sync.Map // goroutine id -> true while the harness itself is writing from inside a hook
 	hookOps   sync.Map // op number -> true for storage operations the harness issued from inside a hook
+	// transient refusal: the next replicated write of one document on this peer fails once while the replication is connected
+	faultArmed atomic.Bool
+	faultDoc   atomic.Int32
 	// document writes seen at the storage boundary (H1), harvested from the store's log
 	opsMu sync.Mutex
 	ops   []*base.VerifOp
@@ -115,11 +125,12 @@ func (e *c06Env) classify(doc string, peers ...*c06Peer) string {
 		sort.Slice(applied, func(i, j int) bool { return applied[i].CasOut < applied[j].CasOut })
 		for i, op := range applied {
 			if i > 0 && op.Kind == "WriteUpdateWithXattrs" && op.PrevTombstone && !op.Deleted && op.CasIn != 0 && op.CasIn < applied[i-1].CasOut {
-				return "cause=a-resurrection-computed-from-an-older-tombstone-overwrote-a-newer-committed-revision-on-the-" + p.name + "(resurrection-is-written-without-compare-and-swap:open-C05-finding)"
+				return "C06|isgr|peers-differ|cause=a-resurrection-computed-from-an-older-tombstone-overwrote-a-newer-committed-revision(resurrection-is-written-without-compare-and-swap:open-C05-finding)"
 			}
-			if op.Gid != e.harness && op.Kind == "WriteUpdateWithXattrs" && op.Attempt >= 2 {
+			// only the active resolves conflicts inside the update callback
+			if p == e.A && op.Gid != e.harness && op.Kind == "WriteUpdateWithXattrs" && op.Attempt >= 2 {
 				if _, mine := p.hookOps.Load(op.N); !mine {
-					retried = "history=a-replicated-write-of-this-document-lost-its-compare-and-swap-on-the-" + p.name + "-and-its-update-callback(conflict-detection-and-resolution)-ran-again"
+					retried = e.sigBase() + "|peers-differ|history=a-pulled-write-of-this-document-lost-its-compare-and-swap-on-the-active-and-its-update-callback(conflict-detection-and-resolution)-ran-again"
 				}
 			}
 		}
@@ -212,9 +223,9 @@ func c06Setup(t *testing.T, run *vlib.Run, c *c06Case) *c06Env {
 	vsA, vsP := newVStore(t), newVStore(t)
 	peers := SetupISGRPeersWithOpts(t, TestISGRPeerOpts{
 		ActivePeerSupportedBLIPSubProtocols: []string{proto},
-		ActiveRestTesterConfig: &RestTesterConfig{DatabaseConfig: &DatabaseConfig{DbConfig: DbConfig{Name: "activedb"}},
+		ActiveRestTesterConfig: &RestTesterConfig{DatabaseConfig: &DatabaseConfig{DbConfig: DbConfig{Name: fmt.Sprintf("c06a%d", c.Index)}},
 			SgReplicateEnabled: true, CustomTestBucket: vsA.vtb},
-		PassiveRestTesterConfig: &RestTesterConfig{DatabaseConfig: &DatabaseConfig{DbConfig: DbConfig{Name: "passivedb"}},
+		PassiveRestTesterConfig: &RestTesterConfig{DatabaseConfig: &DatabaseConfig{DbConfig: DbConfig{Name: fmt.Sprintf("c06p%d", c.Index)}},
 			CustomTestBucket: vsP.vtb},
 	})
 	e.A = &c06Peer{name: "active", rt: peers.ActiveRT, vs: vsA}
@@ -228,6 +239,13 @@ func c06Setup(t *testing.T, run *vlib.Run, c *c06Case) *c06Env {
 		p.vs.SetFault(func(op *base.VerifOp, _ string) base.VerifDecision {
 			if _, mine := p.inHook.Load(op.Gid); mine {
 				p.hookOps.Store(op.N, true)
+				return base.VerifDecision{}
+			}
+			if p.faultArmed.Load() && op.Gid != e.harness && op.Kind == "WriteUpdateWithXattrs" && int(p.faultDoc.Load()) == e.docIndex(op.Key) &&
+				p.faultArmed.CompareAndSwap(true, false) {
+				e.run.Count("pulled_revisions_refused_once_by_a_transient_storage_error", 1)
+				e.tr("%s: the replicated write of %s is refused once (transient storage error while the replication is connected)", p.name, op.Key)
+				return base.VerifDecision{Action: base.VerifFailBefore, Err: errInjected}
 			}
 			if p.gateArmed.Load() && op.Gid != e.harness && c06IsDocWrite(op) && e.isDocKey(op.Key) {
 				if g := int(p.gateDoc.Load()); g >= 0 && g != e.docIndex(op.Key) {
@@ -252,10 +270,25 @@ func c06Setup(t *testing.T, run *vlib.Run, c *c06Case) *c06Env {
 			return base.VerifDecision{}
 		})
 		p.vs.SetMid(func(op *base.VerifOp, _ string) error {
-			if !p.midArmed.Load() || op.Gid == e.harness || !e.isDocKey(op.Key) {
+			if op.Gid == e.harness || !e.isDocKey(op.Key) {
 				return nil
 			}
 			if _, mine := p.inHook.Load(op.Gid); mine {
+				return nil
+			}
+			if c.ReadInWindows && p == e.A {
+				// a client reads the document (current revision, and by its current version) while the replicated write
+				// has been computed and not yet stored; reads change nothing, so every window of the case gets one
+				p.inHook.Store(op.Gid, true)
+				cur := p.readMeta(op.Key)
+				p.rt.SendAdminRequest("GET", "/{{.keyspace}}/"+op.Key, "")
+				if cur.CV != "" {
+					p.rt.SendAdminRequest("GET", "/{{.keyspace}}/"+op.Key+"?rev="+strings.ReplaceAll(cur.CV, "@", "%40"), "")
+				}
+				p.inHook.Delete(op.Gid)
+				e.run.Count("reads_inside_replicated_write_windows", 1)
+			}
+			if !p.midArmed.Load() {
 				return nil
 			}
 			if int(p.midDoc.Load()) != e.docIndex(op.Key) {
@@ -768,11 +801,13 @@ func (e *c06Env) maxDocSeq(p *c06Peer) uint64 {
 
 // awaitContinuousCaughtUp: the replication's processed sequence covers the newest revision of every document on
 // the sending side(s), and neither the replication counters nor any peer state moved over two consecutive polls.
-func (e *c06Env) awaitContinuousCaughtUp(id string) bool {
+func (e *c06Env) awaitContinuousCaughtUp(id string) (caughtUp, ok bool) {
 	dir := e.dirOf[id]
 	last, same := "", 0
+	lastAny, since := "", time.Now()
 	errSeen := ""
-	ok := e.waitFor("continuous replication "+id+" to catch up", func() bool {
+	stalled := false
+	ok = e.waitFor("continuous replication "+id+" to catch up", func() bool {
 		push, pull, em := e.dirStates(id)
 		if push == db.ReplicationStateError || pull == db.ReplicationStateError {
 			errSeen = em
@@ -791,8 +826,17 @@ func (e *c06Env) awaitContinuousCaughtUp(id string) bool {
 		}
 		snap := fmt.Sprintf("%d/%d/%d/%d/%s/%s|%s|%s", st.DocsCheckedPush, st.DocsWritten, st.DocsCheckedPull, st.DocsRead, st.LastSeqPush, st.LastSeqPull,
 			e.fingerprint(e.A), e.fingerprint(e.P))
+		if snap != lastAny {
+			lastAny, since = snap, time.Now()
+		}
 		if !covered {
 			last, same = "", 0
+			// a continuous replication whose receiving side refused a revision keeps that sequence pending until it is
+			// restarted: nothing moves any more although it is not caught up. Not a verdict: the caller restarts it.
+			if (st.RejectedLocal > 0 || st.DocWriteFailures > 0) && time.Since(since) > 3*time.Second {
+				stalled = true
+				return true
+			}
 			return false
 		}
 		if snap == last {
@@ -805,7 +849,12 @@ func (e *c06Env) awaitContinuousCaughtUp(id string) bool {
 	if errSeen != "" {
 		e.tr("replication %s in error state: %s", id, errSeen)
 		e.run.Note("case %d: replication went into error state: %s", e.c.Index, errSeen)
-		return false
+		return false, false
+	}
+	if stalled {
+		e.run.Count("continuous_runs_stalled_on_a_refused_revision", 1)
+		e.tr("continuous replication %s is stalled on a refused revision (nothing moved for 3 s, not caught up)", id)
+		return false, true
 	}
 	if !ok {
 		st, _ := e.status(id)
@@ -815,7 +864,7 @@ func (e *c06Env) awaitContinuousCaughtUp(id string) bool {
 		e.run.Note("case %d (%s %s): continuous replication did not catch up within the watchdog: states push=%q pull=%q err=%q status=%s newest document sequence active=%d passive=%d; trace: %v",
 			e.c.Index, e.c.Proto, e.c.Direction, push, pull, em, b, e.maxDocSeq(e.A), e.maxDocSeq(e.P), c06Tail(e.traceCopy(), 12))
 	}
-	return ok
+	return ok, ok
 }
 
 // awaitFeeds waits until each peer's own changes feed (admin _changes since 0) lists every document at its current
@@ -858,7 +907,8 @@ func (e *c06Env) runToCaughtUp(id string, dir db.ActiveReplicatorDirection, cont
 		}
 	}
 	if e.cont[id] {
-		if !e.awaitContinuousCaughtUp(id) {
+		// stalled (not caught up, nothing moving): stopped as well; the caller sees an uncovered run and restarts
+		if _, ok := e.awaitContinuousCaughtUp(id); !ok {
 			return false
 		}
 		return e.stop(id)
@@ -894,10 +944,10 @@ func (e *c06Env) openGates() {
 // cases and scripts
 
 type c06Step struct {
-	Op   string `json:"op"`             // write | start | stop | await | midflight-stop | arm-mid
+	Op   string `json:"op"`             // write | start | stop | await | midflight-stop | arm-mid | arm-pull-fault
 	Peer string `json:"peer,omitempty"` // active | passive
 	Doc  int    `json:"doc"`
-	Kind string `json:"kind,omitempty"` // put | delete; midflight-stop: delay | lose
+	Kind string `json:"kind,omitempty"` // put | delete; arm-mid also: read; midflight-stop: delay | lose
 }
 
 type c06Case struct {
@@ -908,6 +958,7 @@ type c06Case struct {
 	Proto          string    `json:"sub_protocol"`
 	Continuous     bool      `json:"continuous"`
 	FastCheckpoint bool      `json:"checkpoint_interval_5ms"`
+	ReadInWindows  bool      `json:"reader_in_every_replicated_write_window_on_the_active"`
 	Steps          []c06Step `json:"steps"`
 }
 
@@ -947,15 +998,15 @@ func c06GenScript(r *vlib.Rand) []c06Step {
 	}
 	for i := 0; i < n; i++ {
 		switch x := r.Intn(20); {
-		case x < 10:
+		case x < 9:
 			st = append(st, c06Step{Op: "write", Peer: peer(), Doc: r.Intn(c06NumDocs), Kind: kind()})
-		case x < 13:
+		case x < 12:
 			st = append(st, c06Step{Op: "start"})
-		case x < 15:
+		case x < 14:
 			st = append(st, c06Step{Op: "await"})
-		case x < 16:
+		case x < 15:
 			st = append(st, c06Step{Op: "stop"})
-		case x < 18:
+		case x < 17:
 			// one document's replicated write is parked at the storage boundary while the others go through; after the
 			// stop it either goes through late ("delay") or fails = the in-flight revision is lost ("lose")
 			k := "delay"
@@ -963,8 +1014,16 @@ func c06GenScript(r *vlib.Rand) []c06Step {
 				k = "lose"
 			}
 			st = append(st, c06Step{Op: "midflight-stop", Doc: r.Intn(c06NumDocs), Kind: k})
+		case x < 19 || i%2 == 0:
+			// a local write, or a read of the document, inside the compute->CAS window of the next replicated write
+			k := kind()
+			if r.Chance(1, 3) {
+				k = "read"
+			}
+			st = append(st, c06Step{Op: "arm-mid", Peer: peer(), Doc: r.Intn(c06NumDocs), Kind: k})
 		default:
-			st = append(st, c06Step{Op: "arm-mid", Peer: peer(), Doc: r.Intn(c06NumDocs), Kind: kind()})
+			// the active refuses the next pulled revision of one document once (transient error); only a restart retries it
+			st = append(st, c06Step{Op: "arm-pull-fault", Peer: "active", Doc: r.Intn(c06NumDocs)})
 		}
 	}
 	return st
@@ -1013,10 +1072,13 @@ func (e *c06Env) execute() bool {
 				continue
 			}
 			if c.Continuous {
-				if !e.awaitContinuousCaughtUp(c06ReplID) {
+				caught, ok := e.awaitContinuousCaughtUp(c06ReplID)
+				if !ok {
 					return false
 				}
-				e.tr("step %d: continuous replication caught up", i)
+				if caught {
+					e.tr("step %d: continuous replication caught up", i)
+				}
 			} else if !e.awaitStopped(c06ReplID) {
 				return false
 			} else {
@@ -1074,10 +1136,30 @@ func (e *c06Env) execute() bool {
 			if !ok {
 				return false
 			}
+		case "arm-pull-fault":
+			if c.Direction == "push" {
+				continue // a push skips revisions the passive failed to store (counted as doc_write_failures): by design
+			}
+			e.A.faultDoc.Store(int32(s.Doc))
+			e.A.faultArmed.Store(true)
+			e.tr("step %d: armed: the active refuses the next pulled revision of %s once", i, e.docIDs[s.Doc])
 		case "arm-mid":
 			p := e.peer(s.Peer)
 			st := s
 			fn := func(doc int) {
+				if st.Kind == "read" {
+					// a client reads the document (current revision, and by its current version) at that moment
+					e.run.Count("mid_window_reads", 1)
+					id := e.docIDs[doc]
+					cur := p.readMeta(id)
+					r1 := p.rt.SendAdminRequest("GET", "/{{.keyspace}}/"+id, "")
+					code2 := 0
+					if cur.CV != "" {
+						code2 = p.rt.SendAdminRequest("GET", "/{{.keyspace}}/"+id+"?rev="+strings.ReplaceAll(cur.CV, "@", "%40"), "").Code
+					}
+					e.tr("%s: read %s (GET -> %d, GET ?rev=%s -> %d) [inside the compute->CAS window of a replicated write]", p.name, id, r1.Code, cur.CV, code2)
+					return
+				}
 				e.run.Count("mid_window_local_writes", 1)
 				e.write(p, doc, st.Kind, " [inside the compute->CAS window of a replicated write]")
 			}
@@ -1371,7 +1453,7 @@ func (e *c06Env) checkEqual(pr c06Pair, phase string, pairs []c06Pair, passes an
 	// one cause, many appearances (live / tombstone on either side): where the storage history or the revision-tree
 	// shape names the cause, the signature names the cause
 	if cls := e.classify(pr.Doc, e.A, e.P); cls != "" {
-		sig = e.sigBase() + "|peers-differ|" + cls
+		sig = cls
 	} else if sh := c06Shape(a, p); sh != "" && !e.hlv {
 		sig = e.sigBase() + "|" + phase + "|peers-differ|shape=" + sh
 	} else if len(miss) > 0 {
@@ -1460,7 +1542,7 @@ func (e *c06Env) checkDirection(pairs []c06Pair, passes any) bool {
 		sig := e.sigBase() + "|after-" + e.c.Direction + "-caught-up|" + bad + "(" + c06State(a) + "-vs-" + c06State(p) + ")"
 		miss := e.ackedMissing(pairs)
 		if cls := e.classify(pr.Doc, e.A, e.P); cls != "" {
-			sig = e.sigBase() + "|peers-differ|" + cls
+			sig = cls
 		} else if len(miss) > 0 {
 			sig += "|acknowledged-local-revision-missing-from-its-own-peer"
 		}
@@ -1491,6 +1573,7 @@ func (e *c06Env) finalize() {
 	// no interference during the final phase
 	e.A.midArmed.Store(false)
 	e.P.midArmed.Store(false)
+	e.A.faultArmed.Store(false)
 	idle, all, ok := e.passesToIdle(c06ReplID, dir, c.Continuous)
 	if !ok {
 		e.run.Inconclusive("isgr: a wait for the replication expired (or it went into an error state) in the final phase")
@@ -1572,7 +1655,7 @@ func c06Cases(run *vlib.Run, scripts int) []*c06Case {
 		for di, dir := range []string{"push", "pull", "pushAndPull"} {
 			rr := r.Fork(uint64(10 + di))
 			cases = append(cases, &c06Case{Index: len(cases), Tag: "s" + strconv.Itoa(s), Script: s, Direction: dir, Proto: proto,
-				Continuous: rr.Chance(2, 5), FastCheckpoint: rr.Bool(), Steps: steps})
+				Continuous: rr.Chance(2, 5), FastCheckpoint: rr.Bool(), ReadInWindows: rr.Chance(1, 3), Steps: steps})
 		}
 	}
 	return cases
